@@ -32,6 +32,10 @@ CLAIMED = {
          "_format_uncertainty / __format__ / CObs.__format__ / _extract_val_and_dval are modelled exactly on rationals (Obs/Format.v: correctly rounded fixed-point digits, the binary64 rounding of error*10^k, the three exponent branches, flags, rendering to strings); proved for ALL values, errors and significances: the printed value and error denote numbers within half a unit of the last printed digit (plus 2^-53 relative for errors below 1, which the code scales in floating point), both share the decimal place, the parser returns exactly the denoted numbers, flags touch only the leading character. "
          "Every generated string is compared character by character with the model inside Coq, and the implementation's own parse / prior construction is judged against the half-unit specification.",
          "np.log10 (exponent) is an oracle; cases within 2^-44 below a power of ten or within 2^-40 of a rounding tie are skipped and counted; Python's float formatting/parsing is assumed correctly rounded and cross-checked per case.", "§3 C19"),
+ "C14": ("proof", "Coq theorems on a list model of the correlator operations (timeslice-wise zip with None propagation, roll/reverse/thin/symmetrise index laws, all T) + AST-regenerated effect table (no stores into arguments) + in-Coq correspondence with before/after snapshots",
+         "Corr arithmetic and index transformations are modelled on lists of optional N x N matrices (Corr/Ops.v) and proved, for every T, N and pattern of undefined slices: binary operations are timeslice-wise and undefined exactly where an operand is; roll moves slice t to (t+dt) mod T; reverse, thin, symmetric/anti_symmetric obey their index laws. A syntactic effect table of every method of class Corr is regenerated from the source and proved to contain no store into a parameter. "
+         "Each generated operation (all operators in both orders, functions, transformations, Hankel, projected, item, trace, matrix_symmetric) is run on the implementation twice with the same argument objects, snapshotted, and judged in Coq against the model and against a pointwise specification; value and fluctuations of random slices are judged with C01's specification; complex content is validated on the supported subset.",
+         "partial: trace/item/projected/matrix_symmetric/Hankel/T_symmetry have a model and a pointwise specification compared by computation but no separate index-law theorem; elementary-function values come from Python's math module; the effect analysis follows direct aliases only (snapshots cover the rest); complex content: numeric validation only.", "§3 C14"),
 }
 NOT_YET = "check not built yet in this session (work in progress; see DESIGN.md §6 for the order of work)"
 
